@@ -25,7 +25,7 @@ func init() {
 	core.Register(&core.Prop{
 		ID:    "C08",
 		Level: "exploration",
-		Rule: "each case fixes a source of 100-400 multi-chunk files (plus link groups, directories, small files) and a prior destination (mutated copy) and runs the real Send+Receive under S schedules drawn from stream capacity {0,1,2,8,64} x seeded per-operation delays/yields inside stream calls (the endpoint dwells inside SendMsg/RecvMsg so a missing lock becomes an observable overlap), source reads, hasher and notify callbacks x GOMAXPROCS {1,2,4,16}; the binary is built with the Go race detector (halt_on_error). Outcomes (dest snapshot, REQ set, notification set with digests) of all schedules of a case must be equal up to the hard-link exception; the overlap detector of the harness stream must stay silent. " +
+		Rule: "each case fixes a source of 100-400 multi-chunk files (plus link groups, directories, small files) and a prior destination (mutated copy) and runs the real Send+Receive under S schedules drawn from stream capacity {0,1,2,8,64} x seeded per-operation delays/yields inside stream calls (the endpoint dwells inside SendMsg/RecvMsg so a missing lock becomes an observable overlap), source reads, hasher and notify callbacks x GOMAXPROCS {1,2,4,16}; the binary is built with the Go race detector (halt_on_error). Outcomes (dest snapshot, REQ set, notification set with digests) of all schedules of a case must be equal up to the hard-link exception; the overlap detector of the harness stream must stay silent. After the schedule cases the quick workloads of other transfer checks (quick: C04 fault plans, C19 metadata-only; thorough: also C01 C02 C05 C06 C07 C11 C13 C16 C17) are repeated inside the race-instrumented binary; there only race reports count (observed race_sweep_cases_<id>). " +
 			"non-trivial = schedule run with >=50 content requests; distinct by interleaving fingerprint (hash of the merged order of (endpoint, op, packet type, id) events)",
 		Assumptions: []string{"root", "schedules the Go runtime does not produce in the run are not covered; the race detector only sees executed paths", "built with -race: a race report terminates the child process and is reported with its log"},
 		Cases: func(tier string) int {
@@ -39,7 +39,15 @@ func init() {
 		CaseTimeout:   300 * 1e9,
 		MinNontrivial: func(tier string) int { return 20 },
 		Env:           []string{"GORACE=halt_on_error=1 history_size=3"},
-		Run:           c08Run,
+		// the fault, cancellation and option paths of the other transfer
+		// checks run under the race detector too; only race reports count
+		RaceSweep: func(tier string) []string {
+			if tier == "thorough" {
+				return []string{"C04", "C19", "C01", "C02", "C05", "C06", "C07", "C11", "C13", "C16", "C17"}
+			}
+			return []string{"C04", "C19"}
+		},
+		Run: c08Run,
 	})
 }
 
